@@ -41,7 +41,9 @@ theorem core_update {ex : Option Nat} {s t : State} (c : Core ex s) (h : Nat) (o
       if x = h then (o.addrs = [a] ∧ s.indexes.get o.lidx ≠ some h) else s.vpnIps.get a = some x)
     (hp : ∀ i x, t.pidx.get i = some x →
       if x = h then (o.lidx = i ∧ i ≠ 0 ∧ s.indexes.get i = none ∧ o.ready = true) else s.pidx.get i = some x)
-    (hnx : ∀ x, t.next ≤ x → s.next ≤ x ∧ x ≠ h) : Core ex t := by
+    (hnx : ∀ x, t.next ≤ x → s.next ≤ x ∧ x ≠ h)
+    (hvr : ∀ a, t.vpnIps.get a = some h → o.ready = true → t.pidx.get o.lidx = some h)
+    (hpk : ∀ i x, x ≠ h → s.pidx.get i = some x → t.pidx.get i = some x) : Core ex t := by
   obtain ⟨u1, u2, u3, u4⟩ := not_live_unref c hn hex
   have hl : ∀ a, hostList t a = hostList s a := hostList_congr e1 e2
   have objne : ∀ x, x ≠ h → t.obj x = s.obj x := fun x hx => obj_set_ne s h x o hx t ho
@@ -52,7 +54,7 @@ theorem core_update {ex : Option Nat} {s t : State} (c : Core ex s) (h : Nat) (o
     intro l
     simp only [Live, obj_set_eq s h o t ho, e3] at l
     exact u2 _ l
-  refine ⟨?_, ?_, ?_, ?_, ?_, ?_, ?_, ?_, ?_, ?_, ?_, ?_, ?_⟩
+  refine ⟨?_, ?_, ?_, ?_, ?_, ?_, ?_, ?_, ?_, ?_, ?_, ?_, ?_, ?_⟩
   · intro a l hm; rw [e2] at hm; rw [e1]; exact c.rep a l hm
   · intro a x hx
     rw [hl] at hx
@@ -125,6 +127,14 @@ theorem core_update {ex : Option Nat} {s t : State} (c : Core ex s) (h : Nat) (o
   · intro x hx
     obtain ⟨p1, p2⟩ := hnx x hx
     rw [ho]; simp [Ne.symm p2, c.fresh x p1]
+  · intro a x hx hr
+    by_cases hxh : x = h
+    · subst hxh
+      rw [obj_set_eq s x o t ho] at hr ⊢; exact hvr a hx hr
+    · have := hv a x hx
+      simp only [hxh, ↓reduceIte] at this
+      rw [objne x hxh] at hr ⊢
+      exact hpk _ x hxh (c.vpnReady a x this hr)
 
 /-! ### `HandshakeManager.unlockedDeleteHostInfo` -/
 
@@ -202,7 +212,7 @@ theorem pendingDelete_core {s : State} (c : Core none s) (h : Nat) : Core none (
   have hl : ∀ a, hostList t a = hostList s a := hostList_congr d.hosts d.more
   have lv : ∀ x, Live t x ↔ Live s x := fun x => by simp [Live, obj, d.indexes]
   have rst : ∀ x, t.rstate x = s.rstate x := fun x => by simp [State.rstate, d.rs]
-  refine ⟨?_, ?_, ?_, ?_, ?_, ?_, ?_, ?_, ?_, ?_, ?_, ?_, ?_⟩
+  refine ⟨?_, ?_, ?_, ?_, ?_, ?_, ?_, ?_, ?_, ?_, ?_, ?_, ?_, ?_⟩
   · intro a l hm; rw [d.more] at hm; rw [d.hosts]; exact c.rep a l hm
   · intro a x hx; rw [hl] at hx; rw [obj, lv]; exact c.listOk a x hx
   · intro a; rw [hl]; exact c.nodup a
@@ -233,5 +243,18 @@ theorem pendingDelete_core {s : State} (c : Core none s) (h : Nat) : Core none (
     · cases hx
     · rw [obj, lv]; exact c.vpn a x hx
   · intro x hx; rw [d.next] at hx; rw [d.objs]; exact c.fresh x hx
+  · intro a x hx hr
+    rw [d.vpnIps] at hx
+    split at hx
+    · cases hx
+    · rename_i hn
+      rw [obj] at hr ⊢
+      have hp := c.vpnReady a x hx hr
+      rw [d.pidx, if_neg]; exact hp
+      rintro ⟨_, h2⟩
+      rw [hp] at h2
+      have : x = h := Option.some.inj h2
+      subst this
+      exact hn ⟨by rw [(c.vpn a x hx).1]; simp, hx⟩
 
 end Nebula.HostMap
